@@ -8,31 +8,31 @@ SETUP = "cd /verif && export GOFLAGS=-mod=mod GOPROXY=off GOSUMDB=off GOTOOLCHAI
 CLAIMED = {
  "C37": ("fwd", "exploration",
    "deterministic simulation: seeded schedule + fault search over a real ssh client/server pair, quiescence (deadlock) oracle",
-   "Seeded search over schedules and scenarios (listeners x forwarded opens x accept/close timing) of the real ssh.Client forward-listener code against a real server connection on a simulated link; a hang is decided exactly as a quiescent state with Close/Accept still blocked, misdelivery by tagging every forwarded open. Sampling, not proof: a clean batch is evidence for the explored schedules only.",
+   "Seeded search over schedules and scenarios (listeners x forwarded opens x accept/close timing) of the real ssh.Client forward-listener code against a real server connection on a simulated link; a hang is decided exactly as a quiescent state with Close/Accept still blocked, misdelivery by tagging every forwarded open. Listeners are also closed twice, left open, or closed only after the connection has gone away (Client.Close or a server disconnect); a panic inside Close is a violation. Sampling, not proof: a clean batch is evidence for the explored schedules only.",
    "Trusted: the verifsimrt scheduler and the source instrumenter (validated by running the repository's own ssh tests against the instrumented copy), testing/synctest quiescence detection. The server application is a stub that answers every forward/cancel request.",
    "DESIGN.md section 4 H-fwd"),
 }
 
 CLAIMED["C07"] = ("ckpt", "exploration",
    "deterministic simulation of a checkpoint/crash/restore process with storage fault injection (lost, torn, flipped, truncated, foreign checkpoints) plus enumerated single-byte corruption sweep",
-   "A simulated long-running hashing process checkpoints MarshalBinary output to a simulated disk, crashes at generated points and restores with UnmarshalBinary into a fresh hash; with intact checkpoints every later Sum/Size/BlockSize/MarshalBinary must equal an uninterrupted run (exact oracle, fault-free configuration kept separate), with corrupted checkpoints UnmarshalBinary must return an error or a state on which Write/Sum/Reset/MarshalBinary do not panic. The single-byte corruption space (every position x 256 values x 8 base states x 8 hash kinds) is enumerated completely in both tiers; multi-fault histories are sampled.",
+   "A simulated long-running hashing process checkpoints MarshalBinary output to a simulated disk, crashes at generated points and restores with UnmarshalBinary into a fresh hash; with intact checkpoints every later Sum/Size/BlockSize/MarshalBinary must equal an uninterrupted run (exact oracle, fault-free configuration kept separate), with corrupted checkpoints UnmarshalBinary must return an error or a state on which Write/Sum/Reset/MarshalBinary do not panic. The single-byte corruption space (every position x 256 values x 8 base states x 8 hash kinds) is enumerated completely in both tiers; multi-fault histories are sampled. The checkpoint store may keep the very slice MarshalBinary returned, so that a hash writing into its own marshaled buffer later is seen.",
    "No concurrency is involved; the simulation content is the crash/restore and storage-fault model. Reference = uninterrupted instance of the same code (transparency is relative by definition). Documented Keccak misuse panics (Write/Sum after Read on a squeezing state) are not counted.",
    "DESIGN.md section 4 H-ckpt")
 
 CLAIMED["C31"] = ("rekey", "exploration",
    "deterministic simulation: seeded schedules of concurrent writers x key re-exchanges x link stalls on a real client/server pair, per-stream reference logs, wire-history oracle, quiescence liveness oracle",
-   "A real ssh client and server run on a simulated link with 1-16 concurrent application streams (channel data, stderr data, global and channel requests) from both sides while key exchanges are triggered by byte thresholds from the 256-byte minimum upward, explicitly, and by both sides at once; one link direction is stalled while an exchange is open so that the 64-packet pending queue fills and writers park. Oracles: every stream arrives exactly once and in order (position-dependent content); the independent wire monitor decodes every packet and checks that no application packet is sent between a side's KEXINIT and its NEWKEYS; at quiescence, after stalls are released and with all readers draining, no writer is still blocked. Seeded sampling of schedules, not exhaustive.",
-   "Trusted: scheduler, instrumenter (validated by the repository's own tests on the instrumented copy), wire monitor (independent RFC implementation), synctest quiescence detection. Application layers are harness stubs.",
+   "A real ssh client and server run on a simulated link with 1-16 concurrent application streams (channel data, stderr data, global and channel requests) from both sides while key exchanges are triggered by byte thresholds from the 256-byte minimum upward, explicitly, and by both sides at once; one link direction is stalled while an exchange is open so that the 64-packet pending queue fills and writers park. Oracles: every stream arrives exactly once and in order (position-dependent content); the independent wire monitor decodes every packet and checks that no application packet is sent between a side's KEXINIT and its NEWKEYS; at quiescence, after stalls are released and with all readers draining, no writer is still blocked. A quarter of the runs drive the two handshake transports directly (no mux) with writers submitting packets of 28 different application message numbers (service, userauth, connection protocol, ping/pong extension, unassigned); a third of the others answer global requests from a separate task (then every blocked writer is a violation). Seeded sampling of schedules, not exhaustive.",
+   "Trusted: scheduler, instrumenter (validated by the repository's own tests on the instrumented copy), wire monitor (independent RFC implementation), synctest quiescence detection. Application layers are harness stubs. When both sides' request handlers are blocked inside Request.Reply (each the only consumer of its inbound request stream) no verdict is drawn: neither peer keeps reading, which the liveness clause presupposes (DESIGN.md 9.3).",
    "DESIGN.md section 4 H-rekey")
 
 CLAIMED["C25"] = ("wire", "exploration",
    "deterministic simulation of a writer and a reader transport over a fragmenting link, with an independent RFC packet decoder on the wire as reference model",
-   "Two real packet transports (real ciphers, MACs, sequence counters, RFC 4253 7.2 key derivation) exchange generated payload sequences over a simulated link for every cipher x MAC pair the package implements, every KEX hash, both directions and start sequence numbers around 2^32; the reader must return exactly the written payloads in order with per-packet sequence numbers (incl. wrap), and an independent implementation of RFC 4253/4344/5647, OpenSSH EtM and chacha20-poly1305 decodes every packet on the wire with the same keys and checks length/padding/alignment/MAC under the sequence number it counts itself. Sampled configurations and payload sequences.",
+   "Two real packet transports (real ciphers, MACs, sequence counters, RFC 4253 7.2 key derivation) exchange generated payload sequences over a simulated link for every cipher x MAC pair the package implements, every KEX hash, both directions, direction-specific algorithm pairs (the opposite direction negotiated differently), strict flag on and off, and start sequence numbers around 2^32; the reader must return exactly the written payloads in order with per-packet sequence numbers (incl. wrap), and an independent implementation of RFC 4253/4344/5647, OpenSSH EtM and chacha20-poly1305 decodes every packet on the wire with the same keys and checks length/padding/alignment/MAC under the sequence number it counts itself. Sampled configurations and payload sequences.",
    "Key agreement is supplied by the harness (C29 decides it). Trusted: wiremon (written from the specifications, shares no code with ssh/cipher.go, ssh/mac.go, ssh/transport.go), scheduler, instrumenter.",
    "DESIGN.md section 4 H-wire")
 CLAIMED["C26"] = ("wire", "fault_enumeration",
    "fault injection on the simulated wire: complete enumeration of single-bit flips of a packet per cipher x MAC pair plus seeded multi-fault sequences (truncate, drop, duplicate, swap, insert, inflate length, random stream)",
-   "An on-path attacker rewrites the ciphertext produced by a real writer transport before a real reader transport sees it. Enumerated completely in both tiers: every single-bit flip of the first packet for each of the 51 cipher x MAC pairs. Sampled: 1-3 faults on streams of 1-5 packets for every pair and for the none cipher. For authenticated modes the reader may return only payloads written at that position and none from the first modified packet on, and must end in an error; an inflated length field with the link kept open must be rejected rather than waited for; no input may panic the reader.",
+   "An on-path attacker rewrites the ciphertext produced by a real writer transport before a real reader transport sees it. Enumerated completely in both tiers: every single-bit flip of the first packet for each of the 51 cipher x MAC pairs. Sampled: 1-3 faults on streams of 1-5 packets for every pair and for the none cipher. For authenticated modes the reader may return only payloads written at that position and none from the first modified packet on, and must end in an error; an inflated length field with the link kept open must be rejected rather than waited for; no input may panic the reader. One sampled case in five is an authentic stream from a key-holding peer: packets framed and authenticated by the independent encoder (wiremon.Seal) with any legal padding, one of them with a boundary padding_length byte or a length that is no multiple of the block size: no panic, and a returned payload must be exactly what the body declares.",
    "Timing side channels (CBC camouflage) are out of scope; behaviour after the first error is not asserted. Key agreement supplied by the harness.",
    "DESIGN.md section 4 H-wire")
 
@@ -43,43 +43,43 @@ CLAIMED["C29"] = ("kex", "exploration",
    "DESIGN.md section 4 H-kex")
 CLAIMED["C30"] = ("kex", "fault_enumeration",
    "fault injection by an on-path attacker on the plaintext handshake: complete enumeration of single insert/delete/duplicate/swap faults per position and direction for 5 configurations, plus seeded double faults, strict re-key runs checked by the wire monitor, and non-strict runs with endpoint noise",
-   "With strict KEX offered by both real peers, every single insertion (IGNORE, DEBUG, UNIMPLEMENTED, unknown type), duplication, deletion and adjacent swap at every plaintext packet position of either direction is applied by the attacker (enumerated for 5 configurations x 2 schedules; sampled with double faults elsewhere): neither NewClientConn nor NewServerConn may succeed. After every NEWKEYS (initial and re-keys) the independent wire monitor verifies each packet's MAC/tag under sequence numbers restarting at 0. With strict mode not negotiated, IGNORE and DEBUG packets sent by the endpoints before KEXINIT, inside exchanges, after NEWKEYS and during re-keys must leave handshake and traffic unaffected.",
-   "Non-strict mode is exercised with both peers omitting the marker (guarded KEXINIT hook); a legacy peer facing a strict-capable one is not emulated. Stalled handshakes are ended by cutting the link.",
+   "With strict KEX offered by both real peers, every single insertion (IGNORE, DEBUG, UNIMPLEMENTED, unknown type), duplication, deletion and adjacent swap at every plaintext packet position of either direction is applied by the attacker (enumerated for 5 configurations x 2 schedules; sampled with double faults elsewhere): neither NewClientConn nor NewServerConn may succeed. After every NEWKEYS (initial and re-keys) the independent wire monitor verifies each packet's MAC/tag under sequence numbers restarting at 0. With strict mode not negotiated, IGNORE and DEBUG packets sent by the endpoints before KEXINIT, inside exchanges, after NEWKEYS and during re-keys must leave handshake and traffic unaffected. Scripted peers (hand-written RFC 4253/8731 client or server) face the real constructors: without the marker and with IGNORE/DEBUG noise anywhere (mixed mode), with first_kex_packet_follows and a wrong or right guess, with the marker at any position of the list, and, with the marker, one packet inserted in front of any of their plaintext packets (role x guess x position x kind enumerated): with an insertion the constructor must fail, without one it must succeed and the traffic must decode under restarted sequence numbers.",
+   "Go-to-Go non-strict runs have both peers omit the marker (guarded KEXINIT hook); mixed mode exists only through the scripted peer (curve25519-sha256, ssh-ed25519, aes128-ctr, hmac-sha2-256). Stalled handshakes are ended by cutting the link.",
    "DESIGN.md section 4 H-kex")
 
 CLAIMED["C47"] = ("otr", "exploration",
    "deterministic simulation of two OTR conversations over a simulated message network with seeded delivery order, fragmentation and fault injection (drop, duplicate, reorder, corrupt, inject)",
-   "Two real otr.Conversation state machines (fixed DSA keys, seeded randomness, generated FragmentSize per side) are driven by one event loop whose choices are on the tape: who sends what, which in-flight message or fragment is delivered next, which fault fires. Fault-free configuration with the exact oracle: both reach the encrypted state (incl. crossing AKE starts), every data message is delivered exactly once, unchanged, in order, SMP succeeds iff the secrets are equal, End is observed. Faulty configuration with the narrow oracle: Receive never panics on anything, output reported as encrypted is byte-identical to a message the peer sent, a modified data message yields an error or no output, SMP never completes with different secrets. Seeded sampling.",
+   "Two real otr.Conversation state machines (fixed DSA keys, seeded randomness, generated FragmentSize per side) are driven by one event loop whose choices are on the tape: who sends what, which in-flight message or fragment is delivered next, which fault fires. Fault-free configuration with the exact oracle: both reach the encrypted state (incl. crossing AKE starts), every data message is delivered exactly once, unchanged, in order, SMP succeeds iff the secrets are equal, End is observed; the key exchange runs in lock-step with a reference model of the OTR v2 AKE state machine written from the specification (reply type per state, byte-identical retransmissions, and 'both sides encrypted' asserted exactly when the protocol gets there, e.g. not for three crossing starts that deadlock by design); data messages may be preceded by a copy with a modified authenticated field, which must have no effect; one-sided bursts of 258+ messages under one key pair. Faulty configuration with the narrow oracle: Receive never panics on anything, output reported as encrypted is byte-identical to a message the peer sent, a modified data message yields an error or no output, SMP never completes with different secrets. Seeded sampling.",
    "No instrumentation needed (no goroutines). Replay/duplicate rejection and recovery after faults are not asserted (the property does not state them); messages contain no NUL byte; see the spec's assumptions for protocol-design exclusions.",
    "DESIGN.md section 4 H-otr")
 
 CLAIMED["C32"] = ("sauth", "exploration",
    "deterministic simulation of a real server against an adversarial scripted client after a real key exchange; abstract RFC 4252 authentication session as reference model; callback invocation log",
-   "A real NewServerConn with generated callback outcome tables (accept, reject, partial success naming the next callbacks, Permissions with/without source-address, BannerError, VerifiedPublicKeyCallback) faces a client that completes the real key exchange and then sends generated histories of authentication requests (none, password, keyboard-interactive, public key queries, signatures that are valid / over another session id, user or service / by another key / in another format / malformed, unknown methods, user changes). Safety implications checked against the model: success only with a request that satisfies its method in the current stage, Permissions identical to the object the final successful callback returned, partial success only when the callback grants it; completeness only for unambiguous valid requests. Seeded sampling of histories and configurations.",
+   "A real NewServerConn with generated callback outcome tables (accept, reject, partial success naming the next callbacks, Permissions with/without source-address, BannerError, VerifiedPublicKeyCallback) faces a client that completes the real key exchange and then sends generated histories of authentication requests (none, password, keyboard-interactive, public key queries, signatures that are valid / over another session id, user or service / by another key / in another format / malformed, unknown methods, user changes). Safety implications checked against the model: success only with a request that satisfies its method in the current stage, Permissions identical to the object the final successful callback returned, partial success only when the callback grants it; completeness only for unambiguous valid requests. Keys: Ed25519, ECDSA, RSA and a user certificate; also NoClientAuthCallback outcomes, a plain key under a certificate algorithm name and a certificate under a plain one, keys looked at before and signed after a partial success. Seeded sampling of histories and configurations.",
    "Signature validity is known by construction. GSSAPI is not exercised. Trusted: scheduler, instrumenter, the harness's RFC 4252 request builder.",
    "DESIGN.md section 4 H-sauth")
 CLAIMED["C33"] = ("sauth", "exploration",
    "same simulation as C32 with long request histories, MaxAuthTries sweep, source-address lists against simulated remote addresses, callback log",
-   "On the histories of C32 plus histories of 100-140 never-failing requests: the server must have disconnected before answering a request once MaxAuthTries failures have occurred (an initial none attempt free, read both ways) and never answers a 129th request; after a partial success a request for another user is never honoured; authentication never succeeds when the successful Permissions carry a source-address option that no entry validly matches for the simulated remote address (IPv4, IPv6, non-TCP); the last PublicKeyCallback invocation before a public key success is for the authenticating key and user.",
+   "On the histories of C32 plus histories of 100-140 never-failing requests: the server must have disconnected before answering a request once MaxAuthTries failures have occurred (an initial none attempt free, read both ways) and never answers a 129th request; after a partial success a request for another user is never honoured; authentication never succeeds when the successful Permissions carry a source-address option that no entry validly matches for the simulated remote address (IPv4, IPv6, non-TCP; lists with CIDRs, malformed, empty and whitespace-padded entries); the last PublicKeyCallback invocation before a public key success is for the authenticating key and user.",
    "How malformed source-address entries are treated beyond 'cannot match' is not asserted. Premature disconnects are not asserted.",
    "DESIGN.md section 4 H-sauth")
 
 CLAIMED["C50"] = ("acme", "exploration",
    "deterministic simulation of the real ACME client against a simulated CA (http.RoundTripper) with a fake clock, seeded response faults and concurrent callers; the CA records every request with its simulated time",
-   "1-3 caller tasks share one real acme.Client (instrumented) whose HTTPClient is a simulated RFC 8555 CA; responses follow a seeded fault plan (badNonce, 5xx, 429 with Retry-After, fatal 4xx, dropped reply, malformed body, missing Replay-Nonce, slow replies racing context deadlines on the fake clock), with default and custom RetryBackoff. Oracles evaluated by the CA-side recorder: every JWS nonce was issued by the CA to this client and never seen before; a badNonce is retried with a different nonce; fatal 4xx is not retried; a custom backoff that stops after N bounds attempts by N+1; no retry at the same instant as the failed attempt nor earlier than Retry-After; no request after the context deadline; the caller's value/error corresponds to the final reply; nobody is parked at quiescence. Seeded sampling.",
-   "The exact exponential back-off schedule is not asserted (documentation and code differ, the property is silent). With several callers the return instant is not asserted because calls can wait on the client's internal locks (observed, outside the property). net/http.Client.Do runs uninstrumented (it starts no goroutine with a custom RoundTripper and no Timeout).",
+   "1-3 caller tasks share one real acme.Client (instrumented) whose HTTPClient is a simulated RFC 8555 CA; responses follow a seeded fault plan (badNonce, 5xx, 429 with Retry-After, fatal 4xx, dropped reply, malformed body, missing Replay-Nonce, slow replies racing context deadlines on the fake clock), with default and custom RetryBackoff. Oracles evaluated by the CA-side recorder: every JWS nonce was issued by the CA to this client and never seen before; a badNonce is retried with a different nonce; fatal 4xx is not retried; a custom backoff that stops after N bounds attempts by N+1; no retry at the same instant as the failed attempt nor earlier than Retry-After; no request after the context deadline; the caller's value/error corresponds to the final reply (order and authorization objects differ in their optional members from reply to reply and the returned object is compared member by member with the final one); nobody is parked at quiescence. Seeded sampling.",
+   "The exact exponential back-off schedule is not asserted (documentation and code differ, the property is silent). With several callers the return instant is not asserted because calls can wait on the client's internal locks (observed, outside the property). net/http.Client.Do runs uninstrumented (it starts no goroutine with a custom RoundTripper and no Timeout). Requires the verif-tagged hook acme/verif_hooks.go (the nonce taken from the pool does not depend on map iteration order).",
    "DESIGN.md section 4 H-acme")
 
 CLAIMED["C35"] = ("flow", "exploration",
    "deterministic simulation of the real mux/channel code against a scripted packet-level peer with seeded schedules; window accounting checked on every packet in event order; liveness at quiescence",
    "The real connection protocol (mux, channels, window accounting) runs over an in-memory packet connection against a scripted RFC 4254 peer. System A: local data and stderr writers (writes of 0..200000 bytes) face a peer with initial window 0..300 and maximum packet 9..64 that grants window at generated moments: every data packet must respect the peer's maximum packet size, cumulative payload must never exceed the window granted so far (checked on the wire in event order), reassembled streams must equal what was written, a starved writer must proceed once window is granted (quiescence oracle), Write after Close must fail. System B: a compliant sender (data, stderr and extended data with codes > 1, up to several MiB) faces local readers with generated read sizes and pauses: the local side must never tear the connection down with a window violation, bytes read must equal bytes sent, and the sender is never permanently out of window once readers have drained everything (discarded extended data is credited back). Seeded sampling of schedules and scenarios.",
-   "No transport/encryption underneath (packet connection supplied through the verif hook); two real stacks with default windows are exercised by the C31 harness. The TLA+ model mentioned in the property's quantifier is a different technique and not used.",
+   "The local reader may half-close (CloseWrite) while it keeps reading. No transport/encryption underneath (packet connection supplied through the verif hook); two real stacks with default windows are exercised by the C31 harness. The TLA+ model mentioned in the property's quantifier is a different technique and not used.",
    "DESIGN.md section 4 H-flow")
 
 CLAIMED["C43"] = ("agent", "exploration",
    "deterministic simulation of concurrent agent clients, ServeAgent tasks and direct keyring callers on simulated pipes with a fake clock; linearizability of the recorded history against an abstract agent (porcupine); separate fault configuration with malformed frames and pipe faults",
    "One keyring is used concurrently by direct callers and through 0-3 agent client connections (pipelined or serial), each served by its own ServeAgent task over a simulated pipe, under seeded schedules, while the fake clock crosses key lifetimes. The invoke/return history, stamped with the simulator's event sequence numbers, is checked for linearizability against an abstract agent (keys with expiry, locked flag, passphrase) with porcupine; every returned signature is verified under the named key; nothing is signed or listed while locked or for absent/expired keys. Fault configuration: truncated, oversized, mutated and random request frames, pipe close/reset/write errors at arbitrary bytes, stalls: ServeAgent and clients never panic, every caller returns, replies are not delivered to the wrong caller. Seeded sampling; histories <= 40 operations.",
-   "Observations within +-100 ms of an expiry instant and a few unspecified cases (Add while locked, Unlock while unlocked, flags other than 0/2/4) are accepted either way. The porcupine check runs outside the bubble with a 30 s wall-clock timeout; a timeout counts as inconclusive, never as violation.",
+   "Requests of the legacy protocol 1 (opcodes 1, 7, 8, 9) are sent to the modelled keyring as operations without effect. Observations within +-100 ms of an expiry instant and a few unspecified cases (Add while locked, Unlock while unlocked, flags other than 0/2/4) are accepted either way. The porcupine check runs outside the bubble with a 30 s wall-clock timeout; a timeout counts as inconclusive, never as violation.",
    "DESIGN.md section 4 H-agent")
 CLAIMED["C34"] = ("cauth", "exploration",
    "deterministic simulation of the real client against a scripted server (after a real key exchange) and against the real server with generated method chains; the request history is decoded from ciphertext by the independent wire monitor",
@@ -90,13 +90,13 @@ CLAIMED["C34"] = ("cauth", "exploration",
 CLAIMED["C36"] = ("mux", "exploration",
    "deterministic simulation of the real mux/channel code against a scripted adversarial packet-level peer interleaved with local API calls under seeded schedules; quiescence barrier for the stale-reply oracle; shutdown oracle at quiescence",
    "The real connection protocol runs over an in-memory packet connection against a peer that emits generated grammar-based packet sequences (valid and invalid: unknown or closed channel ids, duplicate confirmations, malformed lengths, truncated bodies, messages of other layers, overflowing window adjusts, data beyond limits, EOF/close in any order, global and channel requests, pings) while local tasks call OpenChannel, SendRequest, Accept/Reject, Write/Read/Close. Oracles: no panic; nothing addressed to an unknown channel ever surfaces locally and want-reply requests for unknown channels are answered with failure; a reply injected while no request is waiting (established by a quiescence barrier) is never delivered to a later request; a certain duplicate open response ends the connection without a second OpenChannel result; when the connection ends every local call returns, every request and channel stream is closed and Wait returns (judged at quiescence). Seeded sampling.",
-   "Replies racing with an in-flight request may go either way. Non-request packets for unknown channels need not end the connection. No transport underneath.",
+   "A request whose answer the peer has sent must return (reply-lost oracle at quiescence); scenarios in which nothing is ever allocated make every small channel id an unknown one. Replies racing with an in-flight request may go either way. Non-request packets for unknown channels need not end the connection. No transport underneath.",
    "DESIGN.md section 4 H-mux")
 
 CLAIMED["C51"] = ("autocert", "exploration",
    "deterministic simulation of the real autocert.Manager with a simulated ACME CA, a fault-injecting simulated Cache and a fake clock under seeded schedules; enumerated sweep of the renewal scheduler over lifetimes x RenewBefore x now",
    "A real autocert.Manager (instrumented, with the real acme.Client underneath) serves 1-8 concurrent GetCertificate calls with generated hellos against a generated HostPolicy, a pre-populated simulated Cache (valid, expired, not-yet-valid, foreign, mismatched, wrong key type, corrupt entries; faults: errors, lost/torn Put, stale reads, delays) and a simulated CA that issues real X.509 certificates with generated lifetimes and validates challenges by calling back into the Manager, while the fake clock crosses renewal and expiry instants. Oracles: a non-challenge certificate is returned only for names the policy accepts (policy modelled from the HostWhitelist documentation); every returned certificate parses, covers the name, is within its validity on the simulated clock, matches its private key and the hello's key type; a burst of hellos for one name causes at most one order; renewals observed at the CA start inside the documented window; the renewal scheduler (direct calls, enumerated 25 RenewBefore x 30 lifetimes x 11 positions x 3 draws) never panics, never returns a negative delay and stays inside the documented jitter window; nobody is parked at quiescence. Seeded sampling for the system runs.",
-   "DirCache, the listener and two Managers sharing a cache are not exercised. The jitter direction is undocumented: a two-sided window is asserted. Requires the verif-tagged hook acme/autocert/verif_hooks.go (deterministic jitter source).",
+   "DirCache and the listener are not exercised; a second instance sharing the cache is emulated only as writes to cache slots during the run (then the exact issuance oracles are off). The jitter direction is undocumented: a two-sided window is asserted; for RenewBefore above 30 days the scheduler's own comment (cap at 30 days) is taken as the documented threshold. Requires the verif-tagged hook acme/autocert/verif_hooks.go (deterministic jitter source).",
    "DESIGN.md section 4 H-autocert")
 
 NA = {
